@@ -474,6 +474,27 @@ func TestC04Exhaustive(t *testing.T) {
 			}
 		}
 	}
+	// linear complexity on samples beyond 10^6 bits with block counts that are not multiples of 2, 4 or 8 (chunked / multi-worker implementations)
+	bigs := []struct{ m, nb, tail int }{{500, 2003, 17}, {1000, 1005, 0}, {9, 120005, 3}, {500, 13, 0}, {5000, 201, 99}}
+	for i, b := range bigs {
+		if i%nsh != shard {
+			continue
+		}
+		c := c04Case{Test: "lincomp", M: b.m, Tail: b.tail, Seed: uint64(40 + i)}
+		for k := 0; k < b.nb; k++ {
+			kind := "random"
+			switch {
+			case k%97 == 5 || k >= b.nb-3: // a few atypical blocks, in particular among the last ones
+				kind = "lfsr"
+			case k%211 == 7:
+				kind = "zero"
+			}
+			c.Blocks = append(c.Blocks, blockSpec{Kind: kind, L: b.m/2 - 5 + k%11, Seed: uint64(1000*i + k)})
+		}
+		if _, err := judge("C04", c, checkC04, false); err != nil {
+			t.Fatalf("C04: %v", err)
+		}
+	}
 	// the hostile shapes at the documented block lengths
 	for _, m := range []int{500, 1000, 5000} {
 		for _, k := range []string{"lastone", "firstone", "zero"} {
